@@ -40,6 +40,7 @@ def cab_ops(sc, nparts=1, maxfiles=40, search=False):
         for k in range(nparts): sc.op("cab_open", "c%d" % k, "in%d.cab" % k)
         for k in range(1, nparts): sc.op("cab_append", "c%d" % (k - 1), "c%d" % k)
         sc.op("cab_extract_all", "c0", "out", maxfiles)
+        sc.op("cab_extract_seq", "c0", "outs", len(sc.lines) * 7 + nparts, 8)   # same / next / previous / random member: re-initialisation, reuse, repeats
     sc.op("cab_close", "c0")
     return sc
 
@@ -175,4 +176,52 @@ def fault_variants(rng, case, clean, per_kind=None):
             for m in modes:
                 sc = case.scn.with_prefix("fault %s %d %s" % (kind, i, m))
                 out.append((kind, i, m, sc))
+    return out
+
+def hostile_cases(rng, n):
+    """inputs aimed at the guards the memory-safety proofs and the sanitizer sweep care about (not well-formed)"""
+    out = []
+    for i in range(n):
+        # (1) CHM with wild directory-header fields
+        f0 = [(b"/index.html", b"<html>hi</html>")] + [(b"/d%02d.txt" % j, b"x" * j) for j in range(rng.choice([2, 30]))]
+        try:
+            chm, exp = chmfmt.build(f0, [(b"/c.bin", 3000)], rng, chunk_size=rng.choice([256, 4096]), density=2)
+        except ValueError:
+            continue
+        b = bytearray(chm); hs1 = 0x38 + 0x28 + 0x18
+        field = rng.choice([0x10, 0x14, 0x14, 0x18, 0x1C, 0x20, 0x24, 0x2C])
+        val = rng.choice([0, 1, 21, 22, 31, 32, 33, 40, 255, 8192, 8193, 100000, 100001, 0x7FFFFFFF, 0x80000000, 0xFFFFFFFF])
+        struct.pack_into("<I", b, hs1 + field, val)
+        sc = scenario.Scn().file("in0.chm", bytes(b)); fmt_ops("chm", sc, 6); out.append(Case("hostile:chm-hdr", "chm", sc))
+    for i in range(n):
+        # (2) cabinet whose block sizes sit at the limits, strict and salvage
+        csz = rng.choice([32768, 38912, 38913, 65535, 40000]); usz = rng.choice([32768, 32769, 65535, 1])
+        payload = bytes(rng.randrange(256) for _ in range(csz))
+        parts = [(payload, usz)] if rng.random() < 0.6 else [(payload[:csz // 2], 0), (payload[csz // 2:], usz), (payload[:30000], usz)]
+        ct = rng.choice([0, 1, 2 | (15 << 8), 3 | (16 << 8)])
+        cab = cabfmt.build_cab([(ct, parts)], [(b"a.bin", min(usz, 32768), 0, 0, 0x5A21, 0x6C43, 0x20)], with_ck=rng.random() < 0.5)
+        sc = scenario.Scn().file("in0.cab", cab).op("cab_new").op("cab_param", 3, rng.choice([0, 1])).op("cab_param", 2, rng.choice([4, 4096]))
+        sc.op("cab_open", "c0", "in0.cab").op("cab_extract_all", "c0", "out", 4).op("cab_close", "c0")
+        out.append(Case("hostile:cab-blocksize", "cab", sc))
+    for i in range(n):
+        # (3) salvage mode, file table with entries that are skipped (bad folder index, empty / unterminated names) before continued entries, then a join
+        c = gen.cab_set(rng)
+        def hook(ci, files):
+            bad = []
+            for _ in range(rng.randrange(1, 3)):
+                kind = rng.random()
+                if kind < 0.5: bad.append((b"", 10, 0, rng.choice([0xFFFE, 0xFFFD, 0xFFFF]), 1, 1, 0x20))      # empty name: rejected after the entry was linked
+                else: bad.append((b"x.bin", 10, 0, rng.choice([500, 0xFFFC]), 1, 1, 0x20))                     # bad folder index
+            pos = rng.randrange(0, len(files) + 1)
+            return files[:pos] + bad + files[pos:]
+        for f in c.folders: f.blocks = f.blocks
+        cabs, names = cabfmt.build_set(c.folders, c.cuts, rng, files_hook=hook)
+        sc = scenario.Scn()
+        for k, cb in enumerate(cabs): sc.file("in%d.cab" % k, cb)
+        sc.op("cab_new").op("cab_param", 3, 1)
+        for k in range(len(cabs)): sc.op("cab_open", "c%d" % k, "in%d.cab" % k)
+        order = list(range(1, len(cabs)))
+        for k in order: sc.op("cab_append", "c%d" % (k - 1), "c%d" % k)
+        sc.op("cab_extract_all", "c0", "out", 6).op("cab_close", "c0")
+        out.append(Case("hostile:cab-salvage-skip", "cab", sc))
     return out
